@@ -87,6 +87,13 @@ claim("C02", "other",
       "DESIGN.md §3 C02, §2.4 G9/G7")
 
 
+claim("C03", "other",
+      "HIR decision-table extraction of the hit-policy dispatch and of each evaluation method's (collection order, result shape, default path) compared with a specification table; attribute/marker string tables; MIR flag-provenance rule for rule matching",
+      "Static table extraction: each of the 11 policy/aggregator combinations has its own arm and reaches one method; the helper that filters on `matches` without sorting is the rule-order collection and the one that sorts by position in the output values is the priority collection (classified from their bodies); each method must use the collection, return the shape (first of the collection / list / count / sum / min / max) and the default output on the empty-match path that DMN 8.2.8/8.2.11 prescribe, with the emptiness test dominating every other result; hitPolicy/aggregation attribute strings (XML) and the one-letter markers (text tables) map to the specified variants, defaults included; the rule-match flag is initialised true once and cleared only under a failed is_true() of an input entry inside the loop. Which rules match for given inputs, the priority comparison itself and output values are not decided.",
+      "Trusts rustc's HIR/MIR and tables/hit_policy.json (DMN 1.3 8.2.8, 8.2.11). UNIQUE's and ANY's conflict checks (several matches -> null) are seen as null results but their conditions are not judged.",
+      "DESIGN.md §3 C03")
+
+
 def main():
     checks = []
     for pid in sorted(CLAIMED):
